@@ -20,7 +20,7 @@ ASSUMPTIONS = ["backward-error constant c = 1e3; singular values compared with L
 SHARDS = {"quick": 8, "thorough": 16}
 DECIDING = ["values_true", "values_sorted_nonneg", "U_orthonormal", "V_orthonormal", "U_orthonormal_range", "V_orthonormal_range", "reconstruction", "eckart_young",
             "truncated_consistent_with_full", "shapes"]
-MUST_REACH = ["pattern:simple", "pattern:repeat", "pattern:zeros", "shape:tall", "shape:wide", "shape:square"]
+MUST_REACH = ["shape:extreme_aspect", "pattern:simple", "pattern:repeat", "pattern:zeros", "shape:tall", "shape:wide", "shape:square"]
 
 C = 1e3
 GAP_CLAUSES = {"U_orthonormal", "V_orthonormal", "U_orthonormal_range", "V_orthonormal_range", "reconstruction", "eckart_young"}
@@ -45,6 +45,20 @@ def cases(tier, seed):
     for d in range(draws * 2):
         out.append({"kind": "layout", "cls": "layout", "idx": idx, "seed": seed, "maxd": maxd})
         idx += 1
+    # extreme aspect ratios (m > 4n or n > 4m) x every multiplicity pattern x narrow dimension 1..4
+    for pat in PATTERNS:
+        if pat in ("unitary", "identity", "scaled_unitary"):
+            continue
+        for a in (1, 2, 3, 4):
+            for tall in (True, False):
+                for d in range(1 if tier == "quick" else 6):
+                    out.append({"kind": "extreme", "cls": "extreme:" + pat, "pat": pat, "a": a, "tall": tall, "idx": idx, "seed": seed})
+                    idx += 1
+    # structured column / row dependencies (duplicated, right-multiple, zero column at every position), incl. extreme aspect ratios
+    for cs in ("dup_column", "dep_column", "zero_column", "dep_row", "dep_sum_column"):
+        for d in range(10 if tier == "quick" else 120):
+            out.append({"kind": "colstruct", "cls": "colstruct:" + cs, "cs": cs, "idx": idx, "seed": seed, "maxd": maxd})
+            idx += 1
     # canonical witnesses of the open known findings: fixed seeds, independent of VERIF_SEED
     for name in ("repeated_unitary", "left_nullity", "right_nullity", "clustered"):
         for d in range(30):
@@ -57,11 +71,16 @@ def cases(tier, seed):
 
 def run_case(spec, ctx, R):
     {"spectrum": _spectrum, "entries": _entries, "layout": _layout, "scaled": _scaled,
-     "canonical": _canonical}[spec["kind"]](spec, ctx, R)
+     "canonical": _canonical, "extreme": _extreme, "colstruct": _colstruct}[spec["kind"]](spec, ctx, R)
 
 
 def _shape(rng, maxd, idx):
-    """Shapes cycle through tall / wide / square / row / column, with |m-n| >= 2 regularly."""
+    """Shapes cycle through tall / wide / square / row / column, with |m-n| >= 2 regularly; every 9th case has an extreme
+    aspect ratio (m > 4n or n > 4m, up to 10x)."""
+    if idx % 9 == 4:
+        a = int(rng.integers(1, 5))
+        b = int(rng.integers(4 * a + 1, 10 * a + 2))
+        return (b, a) if (idx // 9) % 2 == 0 else (a, b)
     k = idx % 7
     if k == 0:
         m = n = int(rng.integers(1, maxd + 1))
@@ -220,9 +239,9 @@ def judge(ctx, R, A, s_true, site, extra_tags=()):
         ctx.check("shapes", okt, site=st, tags=tags, detail={"U": Ut.shape, "V": Vt.shape, "s": stt.shape, "R": Rk})
         if not okt:
             continue
-        same = (np.array_equal(refq.fa(Ut), refq.fa(U[:, :Rk])) and np.array_equal(refq.fa(Vt), refq.fa(V[:, :Rk]))
-                and np.array_equal(stt, s[:Rk]))
-        ctx.check("truncated_consistent_with_full", same, site=st, tags=tags, detail={"R": Rk})
+        # the truncation carries the R largest values of the full decomposition (vectors may legitimately differ, e.g. by a
+        # different but valid algorithm for the truncated form, so only the values are compared)
+        ctx.check("truncated_consistent_with_full", float(np.max(np.abs(stt - s[:Rk]))), vb, site=st, tags=tags, detail={"R": Rk})
         ctx_g.check("U_orthonormal" + ("_range" if Rk <= rank else ""), refq.orth_err(Ut), ob * max(1, Rk) ** 0.5, site=st, tags=tags,
                   detail={"R": Rk})
         ctx_g.check("V_orthonormal" + ("_range" if Rk <= rank else ""), refq.orth_err(Vt), ob * max(1, Rk) ** 0.5, site=st, tags=tags,
@@ -333,3 +352,59 @@ def _canonical(spec, ctx, R):
     _note_reach(ctx, A.shape[0], A.shape[1], tags, rank, min(A.shape))
     ctx.distinct(A)
     judge(ctx, R, A, s_true, "prescribed")
+
+
+def _extreme(spec, ctx, R):
+    rng = gen.rng_for(spec["seed"], "c05ext", spec["idx"])
+    a = spec["a"]
+    b = int(rng.integers(4 * a + 1, 8 * a + 3))
+    m, n = (b, a) if spec["tall"] else (a, b)
+    pat = spec["pat"]
+    if pat == "zero_matrix":
+        A, s_true = refq.zeros(m, n), np.zeros(a)
+    else:
+        s_true = _pattern_svals(rng, pat, a)
+        A, _, _ = refq.with_singular_values(rng, m, n, s_true)
+    tags, rank = truth_tags(s_true, m, n)
+    _note_reach(ctx, m, n, tags, rank, a)
+    ctx.hit("shape:extreme_aspect")
+    ctx.distinct(A, nontrivial=rank >= 1)
+    judge(ctx, R, A, s_true, "prescribed")
+
+
+def _colstruct(spec, ctx, R):
+    rng = gen.rng_for(spec["seed"], "c05cs", spec["idx"])
+    if spec["idx"] % 2:
+        m, n = _shape(rng, spec["maxd"], spec["idx"])
+    else:
+        n = int(rng.integers(2, 5)); m = int(rng.integers(4 * n + 1, 6 * n + 2))      # very tall
+        if spec["idx"] % 4 == 0 and spec["cs"] == "dep_row":
+            m, n = n, m
+    A = refq.randq(rng, m, n)
+    cs = spec["cs"]
+    if n >= 2 and cs in ("dup_column", "dep_column", "zero_column", "dep_sum_column"):
+        j = int(rng.integers(0, n - 1))                 # source column
+        k = int(rng.integers(j + 1, n))                 # affected column; k < n - 1 whenever possible (a non-last dependent column)
+        if n >= 3 and rng.random() < 0.7:
+            k = int(rng.integers(1, n - 1)); j = int(rng.integers(0, k))
+        if cs == "dup_column":
+            A[:, k] = A[:, j]
+        elif cs == "dep_column":
+            A[:, k] = A[:, j] * refq.randq(rng, 1, 1)[0, 0]
+        elif cs == "zero_column":
+            A[:, k] = np.quaternion(0, 0, 0, 0)
+        else:
+            A[:, k] = A[:, j] * refq.randq(rng, 1, 1)[0, 0] + (A[:, 0] * refq.randq(rng, 1, 1)[0, 0] if j > 0 else A[:, j] * 0.5)
+    elif m >= 2 and cs == "dep_row":
+        i = int(rng.integers(1, m))
+        A[i, :] = refq.randq(rng, 1, 1)[0, 0] * A[0, :]
+    s_true = embed.svals(A)
+    if ambiguous(s_true):
+        ctx.skip("values_true", "ambiguous multiplicity pattern")
+        return
+    # numerically zero singular values are zeros of the ground truth
+    s_clean = np.where(s_true <= 1e-12 * max(s_true[0], 1e-300), 0.0, s_true)
+    tags, rank = truth_tags(s_clean, m, n)
+    _note_reach(ctx, m, n, tags, rank, min(m, n))
+    ctx.distinct(A, nontrivial=rank >= 1)
+    judge(ctx, R, A, s_clean, "colstruct:" + cs)
